@@ -53,6 +53,7 @@ class Unit:
         self.r = new_unit(name)
         self.timeout_ms = timeout_ms
         self.max_cex = 2
+        self.max_unknown = 3
 
     # -- exploration bookkeeping ------------------------------------------
     def absorb(self, ex, paths):
@@ -108,6 +109,9 @@ class Unit:
         fresh = [c for c in self.r["cex"] if c.get("reproduced") and c.get("key") not in _known_keys()]
         if len(fresh) >= self.max_cex:
             self.r["skipped_after_violation"] = self.r.get("skipped_after_violation", 0) + 1
+            return False
+        if self.r["unknown"] >= self.max_unknown:
+            self.r["skipped_after_unknown"] = self.r.get("skipped_after_unknown", 0) + 1
             return False
         self.r["obligations"] += 1
         hyps = list(hyps)
